@@ -367,6 +367,77 @@ def run_module_validity(res, tier, sc, drv):
     return {"modules_validated": checked}
 
 
+# expressions that exercise type-argument inference; some are under-constrained (the checker must say so), none may
+# reach the back end with a placeholder type
+INFERENCE_PRELUDE = """class Inf {
+  function <A> applyAny(f: (A) -> int): int = 0
+  function <A> constAny(): int = 1
+  function <A> pick(a: A, b: A): A = a
+  function <A, B> mapOpt(o: Option<A>, f: (A) -> B): Option<B> = match o { Some(x) -> Option.Some(f(x)), None -> Option.None() }
+  function <A> len(o: Option<A>): int = match o { Some(_) -> 1, None -> 0 }
+}
+"""
+INFERENCE_EXPRS = {
+    "uninferable_lambda_parameter": "Inf.applyAny((x) -> 1)",
+    "uninferable_lambda_parameter_used": "Inf.applyAny((x) -> x + 1)",
+    "uninferable_through_id": "Helper.id(Inf.applyAny((x) -> 1))",
+    "uninferable_type_argument": "Inf.constAny()",
+    "uninferable_none": "Inf.len(Option.None())",
+    "uninferable_none_through_id": "Inf.len(Helper.id(Option.None()))",
+    "explicit_type_argument": "Inf.constAny<int>()",
+    "annotated_lambda": "Inf.applyAny((x: int) -> x + 1)",
+    "none_with_peer": "Inf.len(Inf.pick(Option.None(), Option.Some(1)))",
+    "lambda_from_first_argument": "Inf.len(Inf.mapOpt(Option.Some(1), (x) -> x + 1))",
+    "lambda_from_uninferable_first_argument": "Inf.len(Inf.mapOpt(Option.None(), (x) -> 1))",
+    "nested_generic_lambda": "Inf.len(Inf.mapOpt(Inf.mapOpt(Option.Some(1), (x) -> Cell.of(x)), (c) -> c.content))",
+}
+
+
+def run_generated_accept_set(res, tier, sc, drv):
+    """C03 over generated programs: every program of the generated reject corpus of C06 (well-typed contexts, twins,
+    single-fault programs) and every inference-stress expression in every context is compiled by the real
+    compile_sources.  Whatever the checker answers, the compiler must not panic, and a program it accepts must yield a
+    valid module.  (Whether a fault is rejected is C06's business, not this component's.)"""
+    from checks import c06
+    progs = [(n, p_, None) for n, p_, _ in c06.generated_rejects() + c06.declaration_rejects()]
+    progs += [(n, p_, c06.MOD_LIB) for n, p_, _ in c06.module_rejects()]
+    for cn, ctx in c06.GEN_CONTEXTS.items():
+        for en, e in INFERENCE_EXPRS.items():
+            progs.append(("%s@%s" % (en, cn), c06.GEN_PRELUDE + INFERENCE_PRELUDE + ctx.replace("HOLE", e) + "\n", None))
+    d = os.path.join(sc.root, "c03gen")
+    os.makedirs(d, exist_ok=True)
+    counts = {"programs": 0, "accepted": 0, "rejected": 0, "panics": 0, "invalid_modules": 0}
+    for name, prog, lib in progs:
+        path = os.path.join(d, "L.sam")
+        open(path, "w").write(prog)
+        mods = ["L=" + path]
+        if lib is not None:
+            open(os.path.join(d, "Lib.sam"), "w").write(lib)
+            mods.append("Lib=" + os.path.join(d, "Lib.sam"))
+        p = drv.call(["compile", os.path.join(d, "out"), "L"] + mods, check=False, timeout=300)
+        try:
+            st_ = json.loads(p.stdout.strip().split("\n")[-1])
+        except Exception:
+            res.inconc("generated accept set: the driver gave no verdict for %s: %s" % (name, (p.stdout + p.stderr)[-300:]))
+            continue
+        counts["programs"] += 1
+        if st_.get("status") == "panic":
+            counts["panics"] += 1
+            res.violation("the compiler panics on the generated program %s (neither accepted nor rejected with a diagnostic)" % name,
+                          {"property": "C03", "program": prog, "library_module": lib, "generated": name, "stderr": p.stderr[-600:]})
+        elif st_.get("status") == "ok":
+            counts["accepted"] += 1
+            if st_.get("wasm_validation_error"):
+                counts["invalid_modules"] += 1
+                res.violation("the module emitted for the accepted generated program %s is invalid: %s" % (name, st_["wasm_validation_error"]),
+                              {"property": "C03", "program": prog, "library_module": lib, "generated": name, "wasmparser": st_["wasm_validation_error"]})
+        else:
+            counts["rejected"] += 1
+    if counts["accepted"] < len(c06.GEN_CONTEXTS):
+        res.inconc("generated accept set: only %d programs were accepted; the contexts themselves no longer compile" % counts["accepted"])
+    return {"generated_accept_set": counts}
+
+
 TRAP_FILES = ["mir_unopt.json", "mir_opt_11111.json", "lir.json", "lir_00000.json"]
 
 
@@ -651,7 +722,8 @@ def run_enum_layout(res, tier, sc, drv):
     representation chosen by the real compiler must be injective - no run-time value may represent two different
     variants.  Values are modelled as an algebraic datatype (i31 with payload | struct instance of a named type);
     each type's value set is unfolded from the dumped type definitions and z3 decides, for all values, whether
-    two variants of one enum overlap."""
+    two variants of one enum overlap.  A second obligation per pair covers the TypeScript target, whose only
+    discriminators are `typeof` and the tag in slot 0: no value of one variant may pass the test of another."""
     import z3
     outroot = os.path.join(sc.root, "et")
     checked = 0
@@ -667,7 +739,7 @@ def run_enum_layout(res, tier, sc, drv):
         types = {t["name"]: t for t in js["types"]}
         Val = z3.Datatype("Val")
         Val.declare("i31", ("payload", z3.IntSort()))
-        Val.declare("obj", ("ty", z3.StringSort()))
+        Val.declare("obj", ("ty", z3.StringSort()), ("slot0", z3.IntSort()))
         Val = Val.create()
         v = z3.Const("v", Val)
 
@@ -684,8 +756,17 @@ def run_enum_layout(res, tier, sc, drv):
             if var["k"] == "int31":
                 return z3.And(Val.is_i31(v), Val.payload(v) == k)
             if var["k"] == "boxed":
-                return z3.And(Val.is_obj(v), Val.ty(v) == z3.StringVal("%s$_Sub%d" % (tname, k)))
+                return z3.And(Val.is_obj(v), Val.ty(v) == z3.StringVal("%s$_Sub%d" % (tname, k)), Val.slot0(v) == 2 * k + 1)
             return members(var["t"], depth - 1)
+
+        def ts_test(k, var):
+            """the test the emitted TypeScript performs when a match arm selects variant k: objects are arrays, the
+            only discriminators are `typeof v === 'object'` and the tag in slot 0 (lir.rs IsPointer pretty-printer)"""
+            if var["k"] == "int31":
+                return z3.And(Val.is_i31(v), Val.payload(v) == k)
+            if var["k"] == "boxed":
+                return z3.And(Val.is_obj(v), Val.slot0(v) == 2 * k + 1)
+            return Val.is_obj(v)
 
         for tname, t in types.items():
             if t["kind"] != "enum" or len(t["variants"]) < 2:
@@ -698,12 +779,16 @@ def run_enum_layout(res, tier, sc, drv):
             for j in range(n):
                 for k in range(j + 1, n):
                     pairs.append(z3.And(variant(tname, j, t["variants"][j], len(types)), variant(tname, k, t["variants"][k], len(types))))
+                    # TypeScript target: a value of variant j must not pass the test of variant k (match arms may come
+                    # in any order), and the other way round
+                    pairs.append(z3.And(variant(tname, j, t["variants"][j], len(types)), ts_test(k, t["variants"][k])))
+                    pairs.append(z3.And(variant(tname, k, t["variants"][k], len(types)), ts_test(j, t["variants"][j])))
             s.add(z3.Or(*pairs))
             r = s.check()
             if r == z3.sat:
                 collisions += 1
                 m = s.model()
-                res.violation("%s: enum %s has two variants that share the run-time value %s" % (name, tname, m.eval(v, model_completion=True)),
+                res.violation("%s: enum %s has two variants that the emitted code cannot tell apart at the run-time value %s" % (name, tname, m.eval(v, model_completion=True)),
                               {"program": name, "enum": tname, "variants": t["variants"], "shared_value": str(m.eval(v, model_completion=True))})
             elif r != z3.unsat:
                 res.inconc("enum layout query for %s/%s: solver unknown" % (name, tname))
